@@ -123,7 +123,7 @@ impl StateSpace for SO2StateSpace {
 
     /// Modifies the state by clamping each of its values to the space's bounds.
     fn enforce_bounds(&self, state: &mut Self::StateType) {
-        state.normalise();
+        *state = state.normalise();
 
         if self.satisfies_bounds(state) {
             return;
